@@ -95,8 +95,12 @@ def configs(draw):
     invalid = draw(st.one_of(st.none(), st.none(), st.sampled_from([
         "unknown_blocker", "duplicate_name", "unknown_group", "duplicate_group", "max_nodes", "poll_interval", "hpc_type",
         "estimate_above_walltime"])))
+    # the job order may be changed after construction (what `jade config create --shuffle` does through
+    # shuffle_jobs(); here a generated permutation applied through the public reconfigure_jobs()), so that the file
+    # lists job ids in non-ascending order
+    reorder = draw(st.one_of(st.none(), st.none(), st.permutations(list(range(n)))))
     return {"jobs": jobs, "groups": groups, "max_nodes": max_nodes, "poll": poll, "hooks": hooks, "invalid": invalid,
-            "pick": draw(st.integers(0, 7))}
+            "pick": draw(st.integers(0, 7)), "reorder": reorder}
 
 
 def strategy(tier):
@@ -231,13 +235,20 @@ def run_case(case):
             res["sample"] = {"invalid": inv, "jobs": len(case["jobs"]), "groups": len(case["groups"])}
             return res
         cfg = build(case)
+        order = list(range(len(case["jobs"])))
+        if case.get("reorder") and len(case["reorder"]) == len(case["jobs"]):
+            order = list(case["reorder"])
+            listed = cfg.list_jobs()
+            cfg.reconfigure_jobs([listed[i] for i in order])
+            res["classes"].append("reordered_after_construction")
         f1 = os.path.join(tmp, "c1.json")
         cfg.dump(f1)
         cfg2 = create_config_from_file(f1)
         a = [job_view(j) for j in cfg.iter_jobs()]
         b = [job_view(j) for j in cfg2.iter_jobs()]
         # the configuration built over the public models must itself say what was put in
-        for i, (j, x) in enumerate(zip(case["jobs"], a)):
+        for i, x in zip(order, a):
+            j = case["jobs"][i]
             wt = walltime_minutes(case["groups"][j["group"]]["slurm"]["walltime"])
             intended = {"name": j["name"] if j["name"] is not None else str(i + 1), "command": j["command"].strip(),
                         "blocked_by": sorted({str(t) for t in j["blocked_by"]}), "cancel": j["cancel"], "group": f"grp{j['group']}",
